@@ -64,7 +64,9 @@ void h_run(Case &c) {
   const char *syn = d.pick(syns); c.descf("synthetic=\"%s\"", syn);
   hwloc_topology_t t; hwloc_topology_init(&t); hwloc_topology_set_synthetic(t, syn);
   // (NO_MEMATTRS removes the predefined attributes the model starts from, so only the two other NO_* flags are generated here; F-C13-c)
-  { unsigned long tf = 0; if (d.chance(1, 4)) { if (d.chance(1, 2)) tf |= HWLOC_TOPOLOGY_FLAG_NO_DISTANCES; if (d.chance(1, 2)) tf |= HWLOC_TOPOLOGY_FLAG_NO_CPUKINDS; } if (tf) { hwloc_topology_set_flags(t, tf); c.descf(" flags=0x%lx", tf); c.cls("topology-flags:NO_*"); } }
+  unsigned long tf = 0; { if (d.chance(1, 4)) { if (d.chance(1, 2)) tf |= HWLOC_TOPOLOGY_FLAG_NO_DISTANCES; if (d.chance(1, 2)) tf |= HWLOC_TOPOLOGY_FLAG_NO_CPUKINDS; } if (tf) c.cls("topology-flags:NO_*");
+    if (d.chance(1, 3)) { tf |= HWLOC_TOPOLOGY_FLAG_INCLUDE_DISALLOWED; c.cls("topology-flags:INCLUDE_DISALLOWED"); }   // disallowed PUs stay in the topology: allowed sets must not influence stored initiators
+    if (tf) { hwloc_topology_set_flags(t, tf); c.descf(" flags=0x%lx", tf); } }
   CHECK(c, hwloc_topology_load(t) == 0, "setup", "load failed");
   Model model; for (hwloc_memattr_id_t id = 2; id < 8; id++) { const char *nm = NULL; unsigned long fl = 0; CHECK(c, hwloc_memattr_get_name(t, id, &nm) == 0, "setup", "predefined attribute %u missing", id); hwloc_memattr_get_flags(t, id, &fl); model[id] = Attr{nm, fl, {}}; }
   unsigned nextid = 8; { const char *nm; CHECK(c, hwloc_memattr_get_name(t, 8, &nm) < 0, "setup", "unexpected attribute id 8"); }
@@ -145,12 +147,15 @@ void h_run(Case &c) {
       std::vector<hwloc_obj_t> nodes; int i; hwloc_bitmap_foreach_begin(i, ns) { hwloc_obj_t n = hwloc_get_numanode_obj_by_os_index(t, i); CHECK(c, n != NULL, "default_nodeset", "node %d of the default nodeset does not exist", i); nodes.push_back(n); } hwloc_bitmap_foreach_end();
       for (size_t a = 0; a < nodes.size(); a++) for (size_t b2 = a + 1; b2 < nodes.size(); b2++) CHECK(c, !hwloc_bitmap_intersects(nodes[a]->cpuset, nodes[b2]->cpuset), "default_nodeset", "default nodes P#%u and P#%u have intersecting cpusets", nodes[a]->os_index, nodes[b2]->os_index);
       errno = 0; CHECK(c, hwloc_topology_get_default_nodeset(t, ns, 1) == -1 && errno == EINVAL, "default_nodeset", "non-zero flags accepted"); hwloc_bitmap_free(ns); what = "default_nodeset"; c.cls("op:default-nodeset");
+    } else if (k == 13 && (tf & HWLOC_TOPOLOGY_FLAG_INCLUDE_DISALLOWED) && o.chance(1, 2)) {   // change the allowed sets: nothing stored may change
+      hwloc_bitmap_t set = hwloc_bitmap_alloc(); hwloc_obj_t pu = NULL; while ((pu = hwloc_get_next_obj_by_type(t, HWLOC_OBJ_PU, pu))) if (o.chance(1, 2)) hwloc_bitmap_set(set, pu->os_index); if (hwloc_bitmap_iszero(set)) hwloc_bitmap_set(set, hwloc_bitmap_first(hwloc_topology_get_topology_cpuset(t)));
+      int r = hwloc_topology_allow(t, set, NULL, HWLOC_ALLOW_FLAG_CUSTOM); what = strf("allow(CUSTOM, %s)=%d", bstr(set).c_str(), r); hwloc_bitmap_free(set); CHECK(c, r == 0, "allow", "%s failed errno %d", what.c_str(), errno); events++; c.cls("op:allow"); if (o.chance(1, 2)) hwloc_topology_refresh(t);
     } else if (k == 13) {
       hwloc_bitmap_t set = hwloc_bitmap_alloc(); int dens = o.range(4, 9); hwloc_obj_t pu = NULL; while ((pu = hwloc_get_next_obj_by_type(t, HWLOC_OBJ_PU, pu))) if ((int)(o.raw() % 10) < dens) hwloc_bitmap_set(set, pu->os_index);
       unsigned long fl = o.chance(1, 2) ? HWLOC_RESTRICT_FLAG_REMOVE_CPULESS : 0; c.attempt("restrict " + bstr(set)); int r = hwloc_topology_restrict(t, set, fl); what = strf("restrict(%s, 0x%lx)=%d", bstr(set).c_str(), fl, r); hwloc_bitmap_free(set);
       if (r == 0) { model_after_restrict(t, model); events++; c.cls("op:restrict"); if (o.chance(1, 2)) hwloc_topology_refresh(t); }
     } else if (k == 14) { hwloc_topology_t n; CHECK(c, hwloc_topology_dup(&n, t) == 0, "dup", "dup failed"); hwloc_topology_destroy(t); t = n; events++; what = "dup-and-continue"; c.cls("op:dup");
-    } else { std::string x = export_xml(t); hwloc_topology_t n; hwloc_topology_init(&n); hwloc_topology_set_xmlbuffer(n, x.c_str(), (int)x.size() + 1); CHECK(c, hwloc_topology_load(n) == 0, "xml_reload", "reload of the exported XML failed"); hwloc_topology_destroy(t); t = n; events++; what = "xml-reload-and-continue"; c.cls("op:xml-reload"); }
+    } else { std::string x = export_xml(t); hwloc_topology_t n; hwloc_topology_init(&n); hwloc_topology_set_flags(n, tf); hwloc_topology_set_xmlbuffer(n, x.c_str(), (int)x.size() + 1); CHECK(c, hwloc_topology_load(n) == 0, "xml_reload", "reload of the exported XML failed"); hwloc_topology_destroy(t); t = n; events++; what = "xml-reload-and-continue"; c.cls("op:xml-reload"); }
     c.desc("\n | " + what);
     compare_all(c, t, model, what.c_str());
   }
